@@ -157,6 +157,20 @@ class C08(Harness):
                 p2 = gs.predict()
                 out["pred2"] = [L(p2.index), L(p2.values)]
             out["postlog"] = list(log)
+            if kind == "plain" and not nb and not cell.get("nan_candidate") and not cell.get("gapped") and not inp.get("wrapped_scorer"):
+                # the same tuner object re-configured to refit=False and fitted again: nothing may answer from the earlier winner
+                gs.set_params(refit=False)
+                gs.fit(y, fh=fh)
+                del log[:]
+
+                def nfe2(f_):
+                    try:
+                        f_()
+                    except NFE:
+                        return True
+                    return False
+
+                out["refit_switched_off"] = {"nfe_predict": nfe2(lambda: gs.predict(fh)), "nfe_update": nfe2(lambda: gs.update(y)), "calls": [e["op"] for e in log if e["op"] in ("fit", "update", "predict")]}
         else:
             def nfe(f):
                 try:
@@ -293,6 +307,9 @@ class C08(Harness):
                 for e in ups[:1]:
                     for i, v in enumerate(e["vals"]):
                         P.eq("update-and-cutoff-delegate", v, tf(inp["u"][i]))
+            if "refit_switched_off" in out:
+                rs = out["refit_switched_off"]
+                P.check("no-refit-raises-NotFittedError", rs["nfe_predict"] and rs["nfe_update"] and not rs["calls"], {"what": "same tuner fitted again with refit=False", "calls": rs["calls"]})
         else:
             P.check("no-refit-raises-NotFittedError", out["nfe_predict"] and out["nfe_update"] and out["nfe_update_predict_single"])
             P.check("no-refit-raises-NotFittedError", not [e for e in out["postlog"] if e["op"] in ("fit", "update", "predict")])
